@@ -28,16 +28,19 @@ inductive Op
   | block
   | dump
 
+/-- the largest vote period the parameter validator lets through: `math.MaxInt64 / 2` (a round is two periods, computed in int64) -/
+def maxVotePeriod : Nat := (2 ^ 63 - 1) / 2
+
 /-- `oracle Params.Validate` -/
 def oparamsValid (vp : Nat) (thr frac : Int) (w m : Nat) : Bool :=
-  vp != 0 && thr ≥ (one18 / 2 : Nat) && thr ≤ (one18 : Nat) && frac ≥ 0 && frac ≤ (one18 : Nat) &&
+  vp != 0 && vp ≤ maxVotePeriod && thr ≥ (one18 / 2 : Nat) && thr ≤ (one18 : Nat) && frac ≥ 0 && frac ≤ (one18 : Nat) &&
   w != 0 && vp ≤ w && w % vp == 0 && m != 0 && m < w
 
 /-- what a governance parameter-change proposal checks: every value on its own (the validator functions of the parameter table).
 The relations between the values (`vp ≤ w`, `vp ∣ w`, `m < w`) are checked only by `Params.Validate`, which the proposal path does
 not run. -/
 def oparamsKeyValid (vp : Nat) (thr frac : Int) (w m : Nat) : Bool :=
-  vp != 0 && thr ≥ (one18 / 2 : Nat) && thr ≤ (one18 : Nat) && frac ≥ 0 && frac ≤ (one18 : Nat) && w != 0 && m != 0
+  vp != 0 && vp ≤ maxVotePeriod && thr ≥ (one18 / 2 : Nat) && thr ≤ (one18 : Nat) && frac ≥ 0 && frac ≤ (one18 : Nat) && w != 0 && m != 0
 
 def isBlank (s : Str) : Bool := s.all (fun c => c == ' ' || c == '\t' || c == '\n' || c == '\r' || c.toNat == 11 || c.toNat == 12 || c.toNat == 0x85 || c.toNat == 0xA0)
 
